@@ -83,6 +83,77 @@ Arguments lpeek_max {D}.
 Arguments ins_by {D}.
 Arguments sort_by {D}.
 
+(** std::collections::BinaryHeap (alloc/src/collections/binary_heap/mod.rs, Rust 1.95), transcribed:
+    the heap is its underlying Vec; [ole x y] is the element type's [x <= y].
+      push  = Vec::push + sift_up(0, old_len)
+      pop   = Vec::pop, swap with data[0], sift_down_to_bottom(0) (which ends with a sift_up)
+      peek  = data.get(0);  into_iter = the Vec.
+    Used to RUN the model so that ties between equal distances are resolved exactly as the
+    implementation resolves them. *)
+Section BinaryHeap.
+  Variable E : Type.
+  Variable ole : E -> E -> bool.
+  Fixpoint set_at (l : list E) (i : nat) (x : E) : list E :=
+    match l, i with
+    | [], _ => []
+    | _ :: t, O => x :: t
+    | y :: t, S j => y :: set_at t j x
+    end.
+  (** the hole is at [pos], its element [x] is kept aside; parents move down while x > parent *)
+  Fixpoint sift_up (fuel : nat) (l : list E) (pos : nat) (x : E) : list E :=
+    match fuel with
+    | O => set_at l pos x
+    | S f =>
+      match pos with
+      | O => set_at l pos x
+      | S _ =>
+        let parent := Nat.div (pos - 1) 2 in
+        match nth_error l parent with
+        | Some p => if ole x p then set_at l pos x else sift_up f (set_at l pos p) parent x
+        | None => set_at l pos x
+        end
+      end
+    end.
+  Definition bpush (x : E) (l : list E) : list E := sift_up (S (length l)) (l ++ [x]) (length l) x.
+  (** sift_down_to_bottom: the hole walks down to a leaf along the greater children; returns the
+      list (hole position still stale) and the hole position *)
+  Fixpoint sift_down (fuel : nat) (l : list E) (hole child : nat) : list E * nat :=
+    match fuel with
+    | O => (l, hole)
+    | S f =>
+      if Nat.leb (child + 2) (length l) then
+        match nth_error l child, nth_error l (child + 1) with
+        | Some a, Some b =>
+          let c := if ole a b then (child + 1)%nat else child in
+          let v := if ole a b then b else a in
+          sift_down f (set_at l hole v) c (2 * c + 1)%nat
+        | _, _ => (l, hole)
+        end
+      else if Nat.eqb (child + 1) (length l) then
+        match nth_error l child with
+        | Some a => (set_at l hole a, child)
+        | None => (l, hole)
+        end
+      else (l, hole)
+    end.
+  Definition bpop (l : list E) : option (E * list E) :=
+    match rev l with
+    | [] => None
+    | item :: rinit =>
+      match rev rinit with
+      | [] => Some (item, [])
+      | top :: rest =>
+        let l1 := item :: rest in
+        let '(l2, pos) := sift_down (length l1) l1 0 1 in
+        Some (top, sift_up (S (length l2)) l2 pos item)
+      end
+    end.
+  Definition bpeek (l : list E) : option E := hd_error l.
+End BinaryHeap.
+Arguments bpush {E}.
+Arguments bpop {E}.
+Arguments bpeek {E}.
+
 Section Hnsw.
   Variable V D : Type.
   Variable dist : V -> V -> D.
@@ -412,6 +483,15 @@ Section Bundled.
     order_ok (x_leb X) /\ heap_ok (x_cpush X) (x_cpop X) /\ heap_ok (x_rpush X) (x_rpop X).
 End Bundled.
 
-(** the bundle used to run the model: list heaps *)
+(** a bundle with list heaps (heap_ok proved in ProofsBase) *)
 Definition list_ext {V D} (dist : V -> V -> D) (top : D) (leb ltb : D -> D -> bool) (scale : D -> D) : ext V D :=
   mk_ext V D dist top leb ltb scale lpush (lpop_min leb) lpush (lpop_max leb) (lpeek_max leb).
+
+(** the bundle used to RUN the model: std's BinaryHeap with the element orders of hnsw.rs —
+    Neighbor (candidates, min-heap):      a <= b  iff  OrderedFloat(b.d) <= OrderedFloat(a.d)
+    FurthestCandidate (results, max-heap): a <= b  iff  OrderedFloat(a.d) <= OrderedFloat(b.d) *)
+Definition std_ext {V D} (dist : V -> V -> D) (top : D) (leb ltb : D -> D -> bool) (scale : D -> D) : ext V D :=
+  mk_ext V D dist top leb ltb scale
+    (bpush (fun a b : Z * D => leb (snd b) (snd a))) (bpop (fun a b : Z * D => leb (snd b) (snd a)))
+    (bpush (fun a b : Z * D => leb (snd a) (snd b))) (bpop (fun a b : Z * D => leb (snd a) (snd b)))
+    bpeek.
